@@ -1,6 +1,6 @@
 HOOK_COMMITS = []  # filled by gen (git log of /repo commits whose subject starts with "verif hook")
 ENGINES = [
- {"name": "enum", "path": "h/enum", "serves_properties": ["C01", "C02", "C03", "C14"], "kind_free_text": "E1: small-scope exhaustive enumeration of inputs / operation sequences on the real functions against an independent reference model"},
+ {"name": "enum", "path": "h/enum", "serves_properties": ["C01", "C02", "C03", "C05", "C14", "C15", "C16", "C20"], "kind_free_text": "E1: small-scope exhaustive enumeration of inputs / operation sequences on the real functions against an independent reference model"},
 ]
 ALL = ["C%02d" % i for i in range(1, 21)]
 CLAIMS = [
@@ -20,6 +20,22 @@ CLAIMS = [
   "technique": "explicit-state small-scope enumeration: all pairs, triples and 4-step delivery histories (orders, regroupings, duplicates, forwarded deltas) over a descriptor universe, real Merge vs last-writer-wins reference",
   "text": "Exhaustive within the bound: instance ring — all triples over 49 (thorough 343) descriptors built from 2 content tables (each (id,timestamp) one content; unsorted/duplicated/empty token lists; LEFT tombstones carrying tokens), and all 4-sequences (start state + 3 updates, 4 delivery forms); partition ring — all triples over 65 (325) descriptors with independent state and lock registers and owner tombstones, all pairs over 845 (4225). Checked on the real Merge(other,false): idempotence, commutativity, associativity, delta sufficiency (also into A⊔X), nil change ⇒ unchanged, normal form, newer timestamp wins, removal wins ties.",
   "note": "Proviso of the property enforced by construction (one content per (entry,timestamp), disjoint tokens). Random larger descriptors are not run. Merge(…, localCAS=true) is deliberately non-commutative and is exercised in C04/C05/C06 instead."},
+ {"id": "C05", "engine": "enum", "design_ref": "DESIGN.md §4 C05",
+  "technique": "explicit-state BFS over ring states reachable by real Merge calls (gossip and local-CAS) from a colliding-token alphabet; invariant + reference collision rule in every state; each state fed to a real ring client",
+  "text": "Breadth-first search to depth 3 from the empty ring over 300+ operations (1- and 2-entry gossip descriptors in 5 states × 3 timestamps × 10 raw token lists incl. unsorted/duplicated, local-CAS put/remove via Merge(…,true)); every transition replays the real merges on a fresh descriptor; every reachable state must satisfy single-owner/sorted/LEFT-has-no-tokens, equal a reference (LWW + non-LEAVING beats LEAVING, else smaller id), and a real Ring fed the state must answer all query kinds without ErrInconsistentTokensInfo or panic.",
+  "note": "Bound: 2 ids quick / 3 thorough, token space {0,1,2^32-1}, depth 3. The per-collision winner rule is asserted, not token-level convergence of replicas that resolved collisions at different times (see DESIGN §5)."},
+ {"id": "C15", "engine": "enum", "design_ref": "DESIGN.md §4 C15",
+  "technique": "explicit-state small-scope enumeration (routing, replication sets) + explicit-state BFS over editor/lifecycler histories (state machine)",
+  "text": "Routing: every partition ring of 1..3 (4) partitions × token assignment over {0,1,2,7,2^32-2,2^32-1} × state vector {pending,active,inactive}, every boundary key: real ActivePartitionForKey / ActivePartitionBatchRing.Get / GetKeysByPartition (all key tuples <=3) vs linear clockwise scan. Replication sets: all 5^6 owner-status vectors (not owner/healthy/stale by 1s/wrong state/unknown) × zone layouts: exactly the healthy registered owners, error iff a partition has none.",
+  "note": "The partition state-machine half (legal edges, lock, promotion, deletion) is covered by the lifecycle part when present in checks_table (see DESIGN.md status table); rings above 4 partitions not explored; multi-partition-owner variant not covered."},
+ {"id": "C16", "engine": "enum", "design_ref": "DESIGN.md §4 C16",
+  "technique": "exhaustive enumeration of the randomness source's answers (scripted draws) and complete enumeration of the spread-minimising generator's finite domain up to N",
+  "text": "Random generator: every sequence of 5 scripted draws over {0,1,2,2^32-1} × every taken subset × requested -1..4 on the real generator with injected randomness. Spread-minimising: zones 0..7 × indexes 0..128 (thorough 1024): 512 sorted distinct tokens ≡ zone mod 8, equal to the tokens the largest generator attributes to the index, globally disjoint, pure; every prefix of instances has ownership spread <=1%; GenerateTokens(n,taken) filtering; partition rings from AddPartition.",
+  "note": "Indexes above N (128 quick, 1024 thorough) are not covered (property mentions 2000). Hooks: injectable rand.Source, tokens-by-instance."},
+ {"id": "C20", "engine": "enum", "design_ref": "DESIGN.md §4 C20",
+  "technique": "exhaustive enumeration of all short strings over a separator-rich 13-byte alphabet, all short lists, all hop chains up to length 4, against an independent reference parser",
+  "text": "All 402k strings of length <=5 over {a,Z,0,-,.,|,:,/,=,space,NUL,DEL,0xC3}, all single bytes, the 149/150/151 boundary, all lists of <=4 elements from a 10-element pool: TenantID/TenantIDs/ExtractWithMetadata vs the documented rules, mutual agreement and metadata independence. Propagation: 1003 org ids × all 340 chains of <=4 hops over HTTP/gRPC inject-extract and the auth middlewares arrive byte-identical; absent/empty/conflicting/multi-valued cases rejected.",
+  "note": "Coverage-guided fuzzing named in the quantifier is a different family and is not run. HTTP hops use net/http header maps (no wire encoding)."},
 ]
 NOT_APPLICABLE = [{"property_id": p, "reason": "check not built yet in this session (planned, see DESIGN.md §4); not a limit of the technique"} for p in ALL if p not in [c["id"] for c in CLAIMS]]
 import subprocess
